@@ -204,6 +204,9 @@ func checkSig0(c sigCase) (err error) {
 	if !inWindow && c.IncOff > 0 {
 		window = "window=future"
 	}
+	if c.ExpOff < c.IncOff {
+		window = "window=inverted(expiration before inception)"
+	}
 	nontrivial := c.Msg.Records() >= 1
 	classes := []string{fmt.Sprintf("alg=%d", c.Alg), window, fmt.Sprintf("compress=%v", c.Msg.Compress), sizeClass(len(packed)), hugeClass(c.Msg, len(packed)), fmt.Sprintf("signed-size>=65534:%v", len(packed)+sigRRLen >= 65534), extraClass(len(c.Msg.Extra)),
 		fmt.Sprintf("refsigned=%v", c.RefSign), fmt.Sprintf("signercase=%v", c.Signer != c.SignerAs)}
@@ -276,7 +279,7 @@ func checkSig0(c sigCase) (err error) {
 		sig.Inception, sig.Expiration = incep, expir
 		m := c.Msg.Build()
 		var serr error
-		out, serr = sig.Sign(signer, m)
+		out, serr = sig.Sign(ref.RandCheckedSigner{Inner: signer}, m) // the signer insists on a usable entropy source, like a token shim would
 		if serr != nil {
 			return pbt.Errf("SIG.Sign failed: %v (alg %d, Compress=%v, packed message %d octets, %d additional records)", serr, c.Alg, c.Msg.Compress, len(packed), len(c.Msg.Extra))
 		}
@@ -775,7 +778,19 @@ func genWindow(t *rapid.T) (int64, int64) {
 	far := func(tag string) int64 {
 		return rapid.OneOf(rapid.Int64Range(120, 600), rapid.Int64Range(120, 86400*365)).Draw(t, tag)
 	}
-	switch rapid.IntRange(0, 11).Draw(t, "wk") {
+	switch rapid.IntRange(0, 13).Draw(t, "wk") {
+	case 12: // inverted: the expiration lies before the inception, both on the same side of now
+		a, b := far("i"), far("e")
+		if a == b {
+			b++
+		}
+		lo, hi := min(a, b), max(a, b)
+		if rapid.Bool().Draw(t, "invpast") {
+			return -lo, -hi // inception now-lo, expiration now-hi: both past, expiration first
+		}
+		return hi, lo // both future, expiration first
+	case 13: // inverted and straddling now: inception in the future, expiration in the past
+		return far("i"), -far("e")
 	case 10: // inception is the current second
 		return 0, far("e")
 	case 11: // expiration is the current second
